@@ -573,6 +573,9 @@ def check(argv):
     from contracts import llvm_cfg
 
     report.guarded("LLVM control-flow emitter contracts", llvm_cfg.run, report)
+    from contracts import llvm_memory
+
+    report.guarded("LLVM allocator contracts", llvm_memory.run, report)
     from contracts import c_statements
 
     report.guarded("C statement printer contracts", c_statements.run, report)
@@ -643,7 +646,7 @@ def check(argv):
                           "gcc is run with -fwrapv -O1; signed overflow is excluded by only comparing runs the IR machine accepts",
                           "the sign of zero is not compared"]
     report.trusted.append("SysV x86-64 struct layout rules (int32/enum 4 bytes, pointers 8 bytes, natural alignment)")
-    return report.finish(explanation="Kind A: every registration of ir_to_c_expression and ir_to_c_assignment is symbolically executed from its real source; the text it builds, read with the C11 operator table, denotes exactly its argument (children known only through the same contract). Kind A: the straight-line LLVM emitters (add/subtract/multiply, comparisons, max/min, boolean_to_integer, literals) executed from their real source against a recording builder with LLVM instruction semantics return a value denoting sem_e of their argument for every operand type combination. Kind A: the control-flow building LLVM emitters (loop, branch, return, and, or; block per statement count) executed from their real source on a symbolic node against a recording builder - the recorded control-flow graph, read as an automaton over evaluations, decisions and child executions, accepts exactly the language the IR semantics of the node prescribes (exact language equivalence). Kind A: the C statement printers (loop, branch incl. the else-if chain and the omitted empty else, return, declaration, declaration-assignment, expression statement; block per statement count) executed from their real source on a symbolic node: the lines returned, read with a line-level reader of the C statement syntax, are the node. Kind A: hoist_declarations (every registration, from its real source, dicts as z3 arrays): a name has a stack slot iff some declaration inside the function introduces it, with the type of one of its declarations. Kind A: struct layout agreement. Kind B: hoisted declarations consistent per kernel of the family. Kind C: three-way differential execution of "
+    return report.finish(explanation="Kind A: every registration of ir_to_c_expression and ir_to_c_assignment is symbolically executed from its real source; the text it builds, read with the C11 operator table, denotes exactly its argument (children known only through the same contract). Kind A: the straight-line LLVM emitters (add/subtract/multiply, comparisons, max/min, boolean_to_integer, literals) executed from their real source against a recording builder with LLVM instruction semantics return a value denoting sem_e of their argument for every operand type combination. Kind A: the control-flow building LLVM emitters (loop, branch, return, and, or; block per statement count) executed from their real source on a symbolic node against a recording builder - the recorded control-flow graph, read as an automaton over evaluations, decisions and child executions, accepts exactly the language the IR semantics of the node prescribes (exact language equivalence). Kind A: the C statement printers (loop, branch incl. the else-if chain and the omitted empty else, return, declaration, declaration-assignment, expression statement; block per statement count) executed from their real source on a symbolic node: the lines returned, read with a line-level reader of the C statement syntax, are the node. Kind B: the allocating LLVM emitters hand malloc/realloc exactly sizeof(element) * n bytes for every count up to 2^31-1 (no 32-bit wrap: defect F9), pass the old block to realloc and type the result. Kind A: hoist_declarations (every registration, from its real source, dicts as z3 arrays): a name has a stack slot iff some declaration inside the function introduces it, with the type of one of its declarations. Kind A: struct layout agreement. Kind B: hoisted declarations consistent per kernel of the family. Kind C: three-way differential execution of "
                          "enumerated expression trees and generated kernels.")
 
 
